@@ -2,6 +2,8 @@
 #![allow(clippy::all)]
 #![allow(static_mut_refs)]
 
+extern crate alloc;
+
 pub mod reference;
 pub mod source;
 pub mod lua;
@@ -10,10 +12,12 @@ pub mod registry;
 pub mod c01_compute;
 pub mod c02_fuse;
 pub mod c02_prec;
+pub mod c02_separator;
 pub mod c06_ifexpr;
 pub mod c08_scalar;
 pub mod c08_steps;
 pub mod c_scalar;
 pub mod c17_matchers;
+pub mod c18_location;
 pub mod c19_config;
 pub mod c20_filters;
